@@ -144,7 +144,7 @@ impl Property for Attribution {
     fn budget(&self, tier: Tier) -> Budget {
         Budget {
             cases: tier.pick(400_000, 30_000_000),
-            tape_len: 700,
+            tape_len: 2000,
         }
     }
     fn decode(&self, t: &mut Tape<'_>) -> AttrCase {
